@@ -55,9 +55,12 @@ pub const KEYS: &[&[&str]] = &[
     &["http://[::1]:8001"],
     &["http://[::1]:8002"],
     &["http://[2001:db8::7]:8001"],
+    // a relative and an absolute host name (trailing dot): different authorities, possibly different hosts
+    &["http://d.example:8080"],
+    &["http://d.example.:8080"],
 ];
 /// groups of keys that a sloppy pool key could confuse
-const CONFUSABLE: &[&[u64]] = &[&[0, 4], &[1, 5], &[2, 6], &[2, 7], &[6, 7], &[0, 1], &[0, 2], &[0, 3], &[8, 9], &[10, 11], &[10, 12], &[8, 9, 11]];
+const CONFUSABLE: &[&[u64]] = &[&[0, 4], &[1, 5], &[2, 6], &[2, 7], &[6, 7], &[0, 1], &[0, 2], &[0, 3], &[8, 9], &[10, 11], &[10, 12], &[8, 9, 11], &[13, 14], &[13, 14, 2]];
 
 fn key_of_uri(uri: &http::Uri) -> usize {
     if let Some(k) = uri.host().and_then(|h| h.strip_prefix('n')).and_then(|h| h.strip_suffix(".example")).and_then(|k| k.parse::<usize>().ok()) { return k; }
@@ -632,7 +635,21 @@ fn gen_many_origins(r: &mut Rng, at_least: u64) -> String {
     format!("- {} 0 0 ; {}", if at_least > 0 { 1 } else { 32 }, ops.join(" ; "))
 }
 /// Timed cases: real idle expiry (50 ms timeout, real sleeps of 5 / 150 ms). Slow, hence a stream of its own.
+/// A connection that can be shared sits in the idle list while requests use it; it expires like any other.
+fn gen_shared_expiry(r: &mut Rng) -> String {
+    let k = r.below(KEYS.len() as u64);
+    let mut ops: Vec<String> = vec![format!("i 0 {k} 1"), "p 0".into(), format!("d 0 {}", r.pick(&["ok0", "ok1"])), "p 0".into()];
+    if r.chance(1, 2) { ops.push(format!("i 1 {k} 1")); ops.push("p 1".into()); ops.push("f 1".into()); }
+    ops.push("f 0".into()); ops.push("run".into());
+    ops.push(format!("t {}", r.pick(&[150u64, 150, 5])));
+    for q in 10..12 { ops.push(format!("i {q} {k} {}", r.chance(3, 4) as u8)); ops.push(format!("p {q}")); }
+    for q in 10..12 { ops.push(format!("d {q} ok0")); ops.push(format!("p {q}")); }
+    ops.push("mark".into()); ops.push("run".into()); ops.push("mark".into()); ops.push("mark".into());
+    format!("X50 {} {} 0 ; {}", r.pick(&[32u64, 1]), r.chance(1, 2) as u8, ops.join(" ; "))
+}
+
 pub fn gen_timed(r: &mut Rng, i: u64) -> String {
+    if i % 12 == 0 || i % 12 == 7 { return gen_shared_expiry(r); }
     if i % 3 == 2 { return gen_mode(r, i, true); }
     if i % 6 == 4 { return gen_busy_past_timeout(r); }
     // every other idle-list case has a timeout below a millisecond: every tick outlasts it
